@@ -2,6 +2,7 @@ package main
 
 import (
 	"fmt"
+	"go/token"
 	"go/types"
 	"sort"
 	"strings"
@@ -42,6 +43,7 @@ func hasOwnMethod(n *types.Named, name string) bool {
 }
 
 func runC15(c *Ctx, r *Run) {
+	checkDecodedPointerNil(c, r, "PANIC-6")
 	r.Rule("CODEC-5", "marshal and unmarshal are inverse: a wire field written from one field of the object is restored into that field")
 	r.Rule("CODEC-6", "wire structs encode every field unconditionally (no omitempty / skipped keys): decoders fill pre-shaped values")
 	r.Rule("ALIAS-E", "no struct literal stores one freshly created object into two reference fields (pre-shaped values are decoded field by field)")
@@ -410,6 +412,8 @@ func runC15(c *Ctx, r *Run) {
 	r.Require("CODEC-4", 5)
 	r.Require("ERR-1", 25)
 	r.Require("OB-U2", 6)
+	checkOwnEntryFromSecrets(c, r, "OWN-1")
+	r.Require("OWN-1", 2)
 }
 
 func isGroupContext(f *types.Var) bool {
@@ -512,4 +516,70 @@ func checkLiteralAliasing(c *Ctx, r *Run, rule string) {
 			})
 		}
 	}
+}
+
+// checkOwnEntryFromSecrets: OWN-1. A restored CMP config must not hold a secret share that disagrees with its own
+// entry of the public table. Structurally: for each secret scalar of the wire struct (ECDSA, ElGamal) the decoder
+// computes secret·G (ActOnBase on the decoded scalar) and that point either becomes the own entry's public share or
+// is compared (Equal) with the stored one by a rejecting test.
+func checkOwnEntryFromSecrets(c *Ctx, r *Run, rule string) {
+	r.Rule(rule, "restored own public shares are computed from (or compared with) the restored secret shares")
+	fn := c.LookupMethod("protocols/cmp/config", "Config", "UnmarshalBinary")
+	if fn == nil {
+		r.Unresolved(rule, "protocols/cmp/config.(*Config).UnmarshalBinary")
+		return
+	}
+	r.Analysed(c.FuncName(fn))
+	for _, secret := range []string{"ECDSA", "ElGamal"} {
+		tied := false
+		for _, call := range callsNamed(fn, "ActOnBase") {
+			rv := recvOf(call)
+			if rv == nil || !strings.HasSuffix(path(rv), "."+secret) || !strings.Contains(relTypeStr(c, derefType(rootStructType(rv))), "configMarshal") {
+				continue
+			}
+			for _, ref := range *call.Referrers() {
+				switch x := ref.(type) {
+				case *ssa.Store:
+					if fa, ok := x.Addr.(*ssa.FieldAddr); ok && fieldName(fa.X.Type(), fa.Field) == secret {
+						if n := namedOf(derefType(fa.X.Type())); n != nil && n.Obj().Name() == "Public" {
+							tied = true
+						}
+					}
+				case *ssa.Call:
+					if o := calleeObj(x); o != nil && o.Name() == "Equal" {
+						// the comparison decides a rejecting test
+						for _, rr := range *x.Referrers() {
+							if _, isIf := rr.(*ssa.If); isIf {
+								tied = true
+							}
+							if u, isU := rr.(*ssa.UnOp); isU && u.Op == token.NOT {
+								for _, r3 := range *u.Referrers() {
+									if _, isIf := r3.(*ssa.If); isIf {
+										tied = true
+									}
+								}
+							}
+						}
+					}
+				}
+			}
+		}
+		r.Check(rule, c.FuncName(fn)+"|own "+secret+" public share from secret", c.Pos(fn.Pos()), tied,
+			"the own entry's "+secret+" public share is "+secret+"·G of the restored secret (or is compared with it)",
+			"the decoder takes the own "+secret+" public share as stored, without recomputing it from, or comparing it with, the restored secret "+secret+" share: a blob whose own public point or secret scalar was altered restores, with a nil error, a config whose secret and public shares disagree (its group key and session tags differ from the other parties')")
+	}
+}
+
+// rootStructType: the type of the struct value a field path starts from (x in x.F, (*x).F).
+func rootStructType(v ssa.Value) types.Type {
+	v = stripConv(v)
+	if u, ok := v.(*ssa.UnOp); ok && u.Op == token.MUL {
+		if fa, ok := u.X.(*ssa.FieldAddr); ok {
+			return fa.X.Type()
+		}
+	}
+	if f, ok := v.(*ssa.Field); ok {
+		return f.X.Type()
+	}
+	return v.Type()
 }
